@@ -30,7 +30,18 @@ CFG = {'lean_modules': ['ObiVerif.Props.C08'],
          'model: strictAlong of the true path) and are compared; every consensus column where both reads are present is re-computed alone (oracle '
          'cons.qual-local); every score handed to the model and the gap penalty are checked against 2^20, the whole match / mismatch tables once per run; '
          'every annotation of the returned record (all keys, sorted; pairing_mismatches map; score_norm / paring_fast_score as exact thousandths) is part of '
-         'the compared result of every pe / pl case; non-trivial = distinct well-formed case (not bad-op)',
+         'the compared result of every pe / pl case; op conc (harness/c08_conc.go) = concurrent use: one line bundles 4..6 pairs of 100..300 bases (error-free, '
+         'mutated, unrelated; B first / identical starts / standard) under one setting (exact and fast alternate, two cases with the defaults of obipairing); '
+         'the result line is what the pairs answer one after the other on one worker state (PEAlign, BuildQualityConsensus, then the worker call '
+         'AssemblePESequences(A, B.ReverseComplement(true), ..., inplace = true): recomputed by the model with the sequential pl clause); the oracle runs in a '
+         'CHILD process of the harness, cold (its first PEAlign calls are the concurrent ones: one-time initialisation of the shared score tables): phase a = g '
+         'goroutines (8 quick, 16 thorough) released together and staggered by 25 microseconds, each with its own arena and shifts map exactly as the worker '
+         'closure creates them, r rounds (3 / 6) over the pairs, every answer must be the answer obtained alone (conc.differs / conc.panic); phase b = the real '
+         'IAssemblePESequencesBatch with g workers on g*r batches of the pairs, every record must be the record assembled alone (conc.batch-differs / '
+         'conc.batch-lost); a child killed by the Go runtime (concurrent map writes, index out of range in a worker goroutine) is reported with its input '
+         '(conc.panic); thorough tier, first seed: two conc cases run through a go build -race child, a race report whose access lies in pkg/obialign, '
+         'pkg/obikmer or pkg/obitools/obipairing is a failure (race.detector); 4 conc cases in quick (+0.4 s), 10 per seed in thorough; non-trivial = distinct '
+         'well-formed case (not bad-op)',
  'technique': 'Lean 4 theorems on a model parametric in the score function and the gap penalty (floats never modelled), with a verbatim layer (flat '
               'column-major matrices, _SetMatrices/_GetMatrix/_GetMatrixFrom index arithmetic, the two loop nests) proved equal to the recurrence layer for '
               'every arena content + a third layer holding the path buffer of the arena written from its end (proved equal for every path matrix and every '
@@ -41,7 +52,8 @@ CFG = {'lean_modules': ['ObiVerif.Props.C08'],
               'worker reuses (Model/PEFastArena.lean: Index4mer position lists, shifts map with its deletes, the path slice as a window of the arena buffer or '
               'a fresh array, append in place / reallocating) proved equal to the recurrence level for every history; transposition of fills (left scheme on '
               '(A,B) = right scheme on (B,A)) to carry the closed condition to the B-first geometry; potential-function invariants bounding the losing scheme; '
-              'magnitude bound by induction over cells; command-line model (Model/PECli.lean) tied through the real parser and worker',
+              'magnitude bound by induction over cells; command-line model (Model/PECli.lean) tied through the real parser and worker; wave 3: concurrent-use '
+              'oracle (the model functions are pure: the answers of the pairs run alone are the reference for g workers running them at the same time)',
  'level_text': 'For every score function s(i,j), every gap penalty and all non-empty reads, on the Lean model: the fill matrices satisfy the three-way '
                'recurrence with the free end gaps of the scheme; _Backtracking on them terminates inside the matrix and its run-length path consumes both '
                'reads exactly (backtrack_consumes); the reported score is the score recomputed along that path (fill_score_is_path); no consuming path scores '
@@ -132,7 +144,21 @@ CFG = {'lean_modules': ['ObiVerif.Props.C08'],
                'level: the model covers the nine pairing options of options.go (both spellings), not the generic options of obioptions / obiconvert, not '
                'repeated options, not parse errors (the real parser exits the process); --gap-penality / --penality-scale enter only through the integer gap '
                'penalty and the column scores (data computed by the harness from the INTENDED values); file reading / pairing of the two files '
-               '(CLIPairedSequence) and the writer are other properties; the worker is run with 2 workers on one batch.',
+               '(CLIPairedSequence) and the writer are other properties; the cl op runs the worker with 2 workers on one batch (the conc op with 8 / 16 workers '
+               'on 24 / 96 batches). Concurrency: obipairing (cmd main -> IAssemblePESequencesBatch, N = --max-cpu workers) and obitagpcr (same closure shape) '
+               'run AssemblePESequences -> PEAlign (Index4mer, FastShiftFourMer, _FillMatrixPeLeftAlign / _FillMatrixPeRightAlign, _Backtracking) -> '
+               'BuildQualityConsensus (_BuildAlignment) concurrently; obikmersim calls ReadAlign / BuildQualityConsensus the same way. PER WORKER (created inside '
+               'the worker closure): the PEAlignArena (score and path matrices, path buffer, 4-mer index and its byte buffer, the four alignment rows) and the '
+               'shifts map. SHARED: the score tables _NucPartMatch, _NucScorePartMatchMatch, _NucScorePartMatchMismatch (filled once behind sync.Once by the '
+               'first caller, fix 4b389da, read-only afterwards), the literal tables _FourBitsBaseCode / _FourBitsBaseDecode / _FourBitsCount and the 4-mer code '
+               'table of obikmer (read-only), the parameters captured by the closure (gap, scale, delta, thresholds, flags), the byte-slice and annotation pools '
+               'of obiseq (sync.Pool: NewBioSequence, ReverseComplement(true), Recycle), the source iterator and the output iterator; the quality adjustment of '
+               'a mismatch column is recomputed per column (no table in the code). The conc op shares exactly that; it is an oracle on the real code (scheduling '
+               'is not modelled: the Lean side is the sequential model, whose functions share nothing by construction); seeded shared-state regressions caught '
+               'with a failing input: arena hoisted out of the worker closure (phase b), package-level alignment rows in BuildQualityConsensus, package-level '
+               'shifts map in FastShiftFourMer (runtime abort reported), initialised-flag set before the tables are filled without the Once (cold start), '
+               'unsynchronised last-call memo in _PairingScorePeAlign. Not covered: a race that never changes an answer on amd64 is seen only by the -race child '
+               '(thorough, first seed); obitagpcr and obikmersim pipelines themselves are not run.',
  'trusted_base': LEAN_TB + ['extract/ (go/ast literal extraction of _FourBitsBaseCode, _FourBitsBaseDecode, __single_base_code__)',
                   'pkg/obialign/verif_hooks_c08.go (exports _PairingScorePeAlign, the two tables, the observed gap penalty), pkg/obialign/verif_hooks_c08b.go '
                   '(one fill + backtracking, copies of the two flat arena matrices), pkg/obialign/verif_hooks_c08c.go (_Backtracking on a caller-supplied path '
@@ -142,7 +168,8 @@ CFG = {'lean_modules': ['ObiVerif.Props.C08'],
                   'float comparisons of ratios of integers < 2^20 are exact (4-mer relative score, min identity)',
                   'the literal quality-adjustment table adjAmd64 in Model/PEAnnot.lean is compared with the table computed by the harness with the formula of '
                   'alignment.go on every case (mismatch = the case is refused)',
-                  "the harness's own reading of the obipairing options it generates (cliNaive) and its IUPAC reverse complement (input of the worker)"],
+                  "the harness's own reading of the obipairing options it generates (cliNaive) and its IUPAC reverse complement (input of the worker)",
+                  'conc op: the Go scheduler actually overlapping the g workers (start barrier, 16 cores; seeded shared-state changes are caught in 2..4 of the 4 quick cases)'],
  'modelled': 'pkg/obialign pairedendalign.go (_SetMatrices, _GetMatrix, _GetMatrixFrom, _FillMatrixPeLeftAlign, _FillMatrixPeRightAlign verbatim over the flat '
              'arena matrices in Model/PEFillV.lean and as one recurrence in Model/PEAlign.lean, PEAlign exact and fast at the three levels: recurrence, flat '
              'matrices (…A), whole arena with the path buffer (…B, Model/PEArena.lean)), backtracking.go (_Backtracking as a list in Model/PEAlign.lean and '
